@@ -65,6 +65,16 @@ def findings():
         return not np.allclose(x, np.linalg.pinv(D) @ np.array([1, 2, 3]), atol=1e-6), x.tolist()
     probe("pinv_cg_complex_typeerror", "pinv(A, CG()) for a complex operator raises TypeError (get_precision knows float32/float64 only)", p_cgc,
           "pinv(Dense([[1+1j,0],[0,2],[1,1j]]),CG()) @ [1,2,3]")
+    def p_jit():
+        A = (1e3 * np.array([[1., 0.], [0., 2.], [1., 1.]])).astype(np.float32)
+        b = np.array([1., 2., 3.], dtype=np.float32)
+        x = np.asarray(pinv(ops.Dense(A), CG()) @ b).astype(np.float64)
+        ref = np.linalg.pinv(A.astype(np.float64)) @ b
+        rel = float(np.abs(x - ref).max() / np.abs(ref).max())
+        return not (rel <= 1e-2), f"relative error {rel:.3g}"
+    probe("pinv_cg_jitter_not_scale_covariant", "pinv(A, CG()) adds cons*I (cons = precision*max(shape)) to the INVERSE of A^H A: the result carries the extra term cons * A^H b, "
+          "relative size cons*sigma^2 - pinv(c*A) != pinv(A)/c; float32 data of scale 1e3 is off by a factor ~1e2, float64 of scale 1e8 likewise", p_jit,
+          "pinv(Dense(1e3*[[1,0],[0,2],[1,1]] as float32),CG()) @ [1,2,3]")
     return out
 
 
@@ -88,7 +98,7 @@ def steering_probes():
     return st
 
 
-def gen_matrix(rnd, g, nmax):
+def gen_matrix(rnd, g, nmax, flat=False):
     shape_cls = rnd.choice(["wide", "square", "tall"])
     a, b = rnd.randint(1, nmax - 1), rnd.randint(2, nmax)
     lo, hi = min(a, b), max(a, b)
@@ -98,6 +108,8 @@ def gen_matrix(rnd, g, nmax):
     cplx = rnd.random() < 0.35
     r = min(m, n)
     sv = sorted(L.separated(rnd, r, lo=0.35, gap=0.25, grow=1.3), reverse=True)
+    if flat:     # larger sizes: singular values in [0.5, 3] (condition <= 6), no separation needed for pinv
+        sv = sorted([rnd.uniform(0.5, 3.0) for _ in range(r)], reverse=True)
     U = L.rand_unitary(g, m, cplx)
     V = L.rand_unitary(g, n, cplx)
     D = (U[:, :r] * np.array(sv)) @ V[:, :r].conj().T
@@ -106,9 +118,9 @@ def gen_matrix(rnd, g, nmax):
     return m, n, cplx, np.array(sv), D
 
 
-def wrap(rnd, g, D, dt):
+def wrap(rnd, g, D, dt, plain=False):
     from cola import ops
-    w = rnd.choice(["Dense", "Dense", "Dense", "Prod2", "Sum2", "Transp"])
+    w = "Dense" if plain else rnd.choice(["Dense", "Dense", "Dense", "Prod2", "Sum2", "Transp"])
     D = D.astype(getattr(np, dt))
     m, n = D.shape
     if w == "Dense":
@@ -364,10 +376,11 @@ def run(ctx):
         pterms.append(f"mkpcase16 {n} {n} {rule} {L.qc_lit((1e-13 * max(1.0, float(np.abs(Pd).max()))) ** 2)} {L.qmat(Pd)}")
         pmeta.append(dict(case=case_js, bad=bad, got=dict(pinv=str(Pd.tolist())[:300])))
 
-    # ---------------- pinv, dense operators: LSTSQ oracle and the CG composition
-    for _ in range(ctx.budget(140, 1200)):
-        m, n, cplx, sv, D = gen_matrix(rnd, g, nmax)
-        f32 = rnd.random() < 0.1
+    # ---------------- pinv, dense operators: LSTSQ oracle and the CG composition; data scaled from 1e-8 to 1e8, some larger sizes
+    for _ in range(ctx.budget(170, 1400)):
+        big = rnd.random() < 0.12
+        m, n, cplx, sv, D = gen_matrix(rnd, g, rnd.randint(15, 40) if big else nmax, flat=big)
+        f32 = rnd.random() < 0.15
         algn = rnd.choice(["none", "Auto", "LSTSQ", "CG", "CG", "CGtight"])
         if algn == "CGtight" and f32:
             algn = "CG"      # a tolerance below single precision is never met: CG's behaviour then is C12's subject
@@ -377,14 +390,32 @@ def run(ctx):
             sv = np.linalg.svd(D, compute_uv=False)
             if sv.min() < 0.2 or sv.max() / sv.min() > 60:
                 continue
+        scl = 1.0
+        if rnd.random() < 0.6:
+            scl = 10.0 ** (rnd.uniform(-3, 3) if f32 else rnd.uniform(-8, 8))
+            D, sv = D * scl, sv * scl
         dt = ("complex64" if f32 else "complex128") if cplx else ("float32" if f32 else "float64")
-        wname, A = wrap(rnd, g, D, dt)
+        wname, A = wrap(rnd, g, D, dt, plain=(scl != 1.0 or big))
         Dd = np.asarray(A.to_dense()).astype(np.complex128)
         k = rnd.choice([1, 2, 3])
         B = (g.standard_normal((m, k)) + (1j * g.standard_normal((m, k)) if cplx else 0)).astype(getattr(np, dt))
-        case_js = dict(fn="pinv", m=m, n=n, dt=dt, wrap=wname, alg=algn, M=D.tolist() if not cplx else [[str(x) for x in rr] for rr in D], B=B.tolist() if not cplx else "complex")
+        cond = float(sv.max() / sv.min())
+        base = 1e-3 if f32 else (1e-5 if algn == "CG" else 1e-8)
+        tol = base * max(1.0, cond ** 2 if algn.startswith("CG") else cond)
+        ref = np.linalg.pinv(Dd) @ B.astype(np.complex128)
+        sc = float(np.abs(ref).max())
+        precision = 1e-6 if f32 else 1e-15
+        eps_pinned = precision * max(m, n)
+        if algn.startswith("CG") and "pinv_cg_jitter_not_scale_covariant" in present:
+            dev = eps_pinned * float(np.abs(Dd.conj().T @ B.astype(np.complex128)).max()) / sc      # relative size of the extra term cons * A^H b
+            if dev > tol / 30:
+                bump(skipped, "pinv_cg_jitter_not_scale_covariant")
+                continue
+        case_js = dict(fn="pinv", m=m, n=n, dt=dt, wrap=wname, alg=algn, scale=scl, M=D.tolist() if not cplx else [[str(x) for x in rr] for rr in D], B=B.tolist() if not cplx else "complex")
         evals += 1
-        bump(hist, f"pinv:{algn}:{'wide' if m < n else 'square' if m == n else 'tall'}")
+        bump(hist, f"pinv:{algn}:{'wide' if m < n else 'square' if m == n else 'tall'}" + (":big" if big else ""))
+        if scl != 1.0:
+            bump(hist, "pinv:scale:1e%+03d" % (2 * int(np.floor(np.log10(scl) / 2))))
         distinct.add(core.digest(case_js))
         if len(samples) < 4:
             samples.append({kk: v for kk, v in case_js.items() if kk not in ("M", "B")})
@@ -396,33 +427,35 @@ def run(ctx):
         except Exception as e:
             mism.append(dict(oracle_fail=True, case=case_js, got=f"{type(e).__name__}: {str(e)[:200]}", failed_clauses=["raised on an input the model accepts"]))
             continue
-        cond = float(sv.max() / sv.min())
-        base = 1e-3 if f32 else (1e-5 if algn == "CG" else 1e-8)
-        tol = base * max(1.0, cond ** 2 if algn.startswith("CG") else cond)
-        ref = np.linalg.pinv(Dd) @ B.astype(np.complex128)
-        sc = max(1.0, float(np.abs(ref).max()))
+        # the independent oracle decides on cola's output: minimum-norm least-squares solution from numpy (relative to its own size)
         bad = []
         if not (np.abs(X - ref).max() <= tol * sc):
-            bad.append(f"pinv(A) @ B differs from the minimum-norm least-squares solution by {np.abs(X - ref).max():.3g}")
+            bad.append(f"pinv(A) @ B differs from the minimum-norm least-squares solution by {np.abs(X - ref).max() / sc:.3g} (relative; tolerance {tol:.3g})")
         if not (np.abs(x1 - X[:, 0]).max() <= tol * sc):
             bad.append("pinv(A) @ b differs from the first column of pinv(A) @ B")
         if algn.startswith("CG"):
             try:
-                xnp = A.xnp
                 Mop = A.H @ A
                 Op = IterativeOperatorWInfo(Mop, algo)
                 Z = A.H @ B
                 Y = np.asarray(Op @ Z)
-                eps = get_precision(xnp, xnp.float32 if f32 else xnp.float64) * max(A.shape)
+                eps = eps_pinned if "pinv_cg_jitter_not_scale_covariant" in present else 0.0
                 res = float(np.abs(np.asarray(Mop.to_dense()) @ Y - np.asarray(Z)).max())
-                if res > (1e-2 if f32 else 1e-4) * max(1.0, float(np.abs(np.asarray(Z)).max())):
-                    mism.append(dict(oracle_fail=False, case=case_js, failed_clauses=[f"the CG solve oracle leaves residual {res:.3g}"]))
+                if not (res <= (1e-2 if f32 else 1e-4) * float(np.abs(np.asarray(Z)).max())):
+                    mism.append(dict(oracle_fail=bool(bad), case=case_js, failed_clauses=bad + [f"the CG solve oracle leaves residual {res:.3g}"]))
                     continue
-                stol = ((1e-5 if f32 else 1e-12) * sc) ** 2
+                if big:
+                    # too large for the rational model: compare with the composition in floating point
+                    comp = Y + eps * np.asarray(Z)
+                    dis = not (np.abs(comp - X).max() <= 1e-9 * float(np.abs(X).max()))
+                    if bad or dis:
+                        mism.append(dict(oracle_fail=bool(bad), case=case_js, failed_clauses=bad, model_disagrees=dis, got=dict(X=str(X.tolist())[:300])))
+                    continue
+                stol = ((1e-5 if f32 else 1e-12) * float(np.abs(X).max())) ** 2
                 pterms.append(f"mkpcase16 {m} {n} (PRCg {L.qmat(np.asarray(A.to_dense()))} {L.qmat(Y)} {L.qic(complex(eps))} {k} {L.qmat(B)}) {L.qc_lit(stol)} {L.qmat(X)}")
                 pmeta.append(dict(case=case_js, bad=bad, got=dict(X=str(X.tolist())[:300])))
             except Exception as e:
-                mism.append(dict(oracle_fail=False, case=case_js, harness_error=f"CG oracle data: {type(e).__name__}: {e}"))
+                mism.append(dict(oracle_fail=bool(bad), case=case_js, failed_clauses=bad, harness_error=f"CG oracle data: {type(e).__name__}: {e}"))
         else:
             # LSTSQ rule: the operator applies the lstsq oracle; check the oracle's specification on its answer
             xnp = A.xnp
@@ -431,11 +464,13 @@ def run(ctx):
                 bad2 = ["pinv(A, LSTSQ) @ B differs from xnp.lstsq(A.to_dense(), B)"]
                 mism.append(dict(oracle_fail=bool(bad), case=case_js, failed_clauses=bad + bad2, model_disagrees=True))
                 continue
+            amax, xmax, bmax = float(np.abs(Dd).max()), float(np.abs(Xo).max()), float(np.abs(B).max())
             ne = float(np.abs(Dd.conj().T @ (Dd @ Xo - B)).max())
             y, *_ = np.linalg.lstsq(Dd.conj().T, Xo.astype(np.complex128), rcond=None)
             rng_res = float(np.abs(Dd.conj().T @ y - Xo).max())
-            if max(ne, rng_res) > (1e-3 if f32 else 1e-9) * sc * max(1.0, sv.max()) * cond:
-                mism.append(dict(oracle_fail=False, case=case_js, failed_clauses=[f"the lstsq oracle violates its specification (normal equations {ne:.3g}, range of A^H {rng_res:.3g})"]))
+            ht = (1e-3 if f32 else 1e-9) * cond * max(m, n)
+            if not (ne <= ht * amax * (amax * xmax + bmax) and rng_res <= ht * xmax):
+                mism.append(dict(oracle_fail=bool(bad), case=case_js, failed_clauses=bad + [f"the lstsq oracle violates its specification (normal equations {ne:.3g}, range of A^H {rng_res:.3g})"]))
                 continue
             if bad:
                 mism.append(dict(oracle_fail=True, case=case_js, failed_clauses=bad, got=dict(X=str(X.tolist())[:300])))
